@@ -10,6 +10,7 @@ A = {"code": "(1)", "verif_tmpl": {"t": "lit", "v": 1}}
 def observe(rng):
     o = [{"op": "snapshot"}]
     o.append({"op": "search", "pattern": {"k": "?k"}, "inherited": rng.random() < 0.3})
+    o.append({"op": "search", "pattern": rng.choice([{"tags": ["red"]}, {"parts": [{"n": 1}]}, {"parts": [{"n": "?n"}]}]), "inherited": False})
     o.append({"op": "getFact", "id": rng.choice(IDS)})
     o.append({"op": "event", "event": {"go": rng.choice([1, "x"]), "k": 1}})
     o.append({"op": "listRules", "inherited": False})
@@ -43,7 +44,14 @@ def gen_ops(rng, thorough, with_reload=True):
         elif r < 0.72: ops.append({"op": "enableRule", "id": rng.choice(["r1", "r2"]), "enable": rng.random() < 0.4})
         elif r < 0.78: ops.append({"op": "setParents", "parents": rng.choice([["p"], [], ["p", "q"]])})
         elif r < 0.82: ops.append({"op": "addFact", "id": "", "fact": {"id": i, "!tag": rng.choice(["t", 1])}})
-        elif r < 0.84: ops.append({"op": "clear"})
+        elif r < 0.83: ops.append({"op": "clear"})
+        elif r < 0.85:
+            # a fact written by a rule action: it reaches the state typed as the Javascript runtime exports it ([]string, []map, int64);
+            # the live location and the reloaded one (which reads JSON) answer alike
+            f = {"k": rng.choice([1, "x"]), "v": i, "tags": rng.sample(["red", "green", "blue"], rng.randint(1, 2)), "parts": [{"n": rng.choice([1, 2])}]}
+            t = {"t": "addfact", "id": i, "fact": f}
+            ops += [{"op": "addRule", "id": "mk", "rule": {"when": {"pattern": {"make!": "?m"}}, "action": {"code": js_of_tmpl(t), "verif_tmpl": t}}},
+                    {"op": "event", "event": {"make!": 1}}, {"op": "remRule", "id": "mk"}]
         elif r < 0.92: ops.append({"op": "event", "event": {"go": rng.choice([1, "x"]), "k": 1}})
         elif with_reload:
             ops += observe(rng); ops.append({"op": "reload"}); ops += observe(rng)
